@@ -57,7 +57,7 @@ PLAN = {
         "laws": [("MC_NestedExec_laws.cfg", 3)],
         "gen": [("evalloop", 5, "sim", 1), ("dotret", 5, "sim", 1), ("exit", 5, "sim", 1), ("errors", 4, "sim", 1),
                 ("errexit", 5, "sim", 1), ("nest", 6, "sim", 1), ("pos", 5, "sim", 1), ("sete", 5, "sim", 1),
-                ("exec", 3, "real", 1), ("execnest", 4, "real", 2), ("exec", 4, "sim", 1),
+                ("exec", 3, "real", 1), ("execnest", 4, "real", 1), ("exec", 4, "sim", 1),
                 ("exit", 4, "real", 16), ("dotret", 4, "real", 8), ("pos", 4, "real", 4)],
         "variants": 2, "random": (6000, 30), "random_real": (300, 24), "jobs": 6,
     },
@@ -422,7 +422,7 @@ def run(tier):
     skipped = res["sim"][1] + res["real"][1]
     rc = rep.finish()
     never = sorted(t for t in RULE_TAGS if not st.tags.get(t) and not st.rtags.get(t))
-    if never:
+    if never and rc == 0:
         raise vlib.ToolError(f"rules of NestedExec.tla never exercised by a replayed or validated run: {never}")
     vlib.write_evidence(PID, tier, {
         "states": st.states,
